@@ -84,12 +84,17 @@ func (b *Blockstore) Has(ctx context.Context, cid cid.Cid) (bool, error) {
 	return has, nil
 }
 
+// errPutNotSupported is returned by Put and PutMany: the EDS store behind this Blockstore only
+// stores whole squares. Put is reached on bridge nodes, where the Bitswap getter passes this
+// Blockstore to Fetch (WithStore) for the blocks it receives, so it must not panic.
+var errPutNotSupported = errors.New("bitswap: blockstore over the EDS store does not store single blocks")
+
 func (b *Blockstore) Put(context.Context, blocks.Block) error {
-	panic("not implemented")
+	return errPutNotSupported
 }
 
 func (b *Blockstore) PutMany(context.Context, []blocks.Block) error {
-	panic("not implemented")
+	return errPutNotSupported
 }
 
 func (b *Blockstore) DeleteBlock(context.Context, cid.Cid) error {
